@@ -13,6 +13,11 @@
 // of them after the commit, with the five-peer set. Events 114 and 116 get round 9 in A, round 8
 // in B, and the blocks of index 8 differ: a fork of the ledger between two honest nodes.
 //
+// Third scenario (corpus field "leave": true, "validators": 5), known finding C01-shrink-fork: DecideFame decides
+// with the super-majority of round j's peer-set while the votes it counts are those of the round j-1 witnesses;
+// when the set shrinks from 5 to 4 at round j, 3 equal votes decide where 4 are needed, and two honest nodes
+// decide the fame of one witness differently (distance bound respected, same validator-set table on both).
+//
 //	winfork corpus/C01-window-fork.json        replay; trace for the runner on stdout
 //	winfork -gen spec.json > corpus.json       build a corpus (fresh keys; grinds the timestamps)
 //
@@ -59,12 +64,24 @@ type evRec struct {
 }
 
 type corpus struct {
-	Scenario string   `json:"scenario"`
-	Comment  string   `json:"comment,omitempty"`
-	Keys     []string `json:"keys,omitempty"`     // private keys, hex (test keys): validators 0..3, joiner 4
-	JoinSig  string   `json:"join_sig,omitempty"` // signature of the join request carried by the first event of creator 0
-	Events   []evRec  `json:"events"`
-	OrderB   []int    `json:"order_b"`
+	Scenario string `json:"scenario"`
+	Comment  string `json:"comment,omitempty"`
+	// number of genesis validators (default 4). The nodes run with one more key (index = Validators): the joiner
+	// of the join scenarios, a plain observer in the leave scenario.
+	Validators int `json:"validators,omitempty"`
+	// Leave: the first event of creator 0 carries "peer Validators-1 LEAVES" instead of "peer 4 joins"
+	Leave bool `json:"leave,omitempty"`
+	Keys    []string `json:"keys,omitempty"`     // private keys, hex (test keys): validators 0..3, joiner 4
+	JoinSig string   `json:"join_sig,omitempty"` // signature of the join / leave request carried by the first event of creator 0
+	Events  []evRec  `json:"events"`
+	OrderB  []int    `json:"order_b"`
+}
+
+func (c *corpus) nval() int {
+	if c.Validators > 0 {
+		return c.Validators
+	}
+	return 4
 }
 
 func middleZero(hexs string) bool {
@@ -98,9 +115,14 @@ func build(w *hx.World, c *corpus, evs []*hg.Event, r *evRec, gen bool) (*hg.Eve
 	}
 	var itxs []hg.InternalTransaction
 	if r.Creator == 0 && r.Index == 0 {
+		who := 4
 		itx := hg.NewInternalTransactionJoin(*w.Peers[4])
+		if c.Leave {
+			who = c.nval() - 1
+			itx = hg.NewInternalTransactionLeave(*w.Peers[who])
+		}
 		if gen && c.JoinSig == "" {
-			if err := itx.Sign(w.Privs[4]); err != nil {
+			if err := itx.Sign(w.Privs[who]); err != nil {
 				return nil, err
 			}
 			c.JoinSig = itx.Signature
@@ -165,7 +187,7 @@ func main() {
 	if *gen != "" {
 		w = hx.NewWorld(bufio.NewWriter(os.Stderr))
 		c.Keys = nil
-		for i := 0; i < 5; i++ {
+		for i := 0; i < c.nval()+1; i++ {
 			w.AddKey()
 			c.Keys = append(c.Keys, hex.EncodeToString(keys.DumpPrivateKey(w.Privs[i])))
 		}
@@ -201,7 +223,10 @@ func main() {
 		scen = "window-fork"
 	}
 	fmt.Fprintf(out, "H 0\n")
-	genesis := []int{0, 1, 2, 3}
+	genesis := []int{}
+	for i := 0; i < c.nval(); i++ {
+		genesis = append(genesis, i)
+	}
 	type obs struct {
 		nd       *hx.Node
 		entryAt  int // event whose insertion wrote the new peer-set entry
@@ -211,7 +236,7 @@ func main() {
 	}
 	run := func(id int, order []int) *obs {
 		o := &obs{entryAt: -1}
-		o.nd = w.NewNode(id, 4, genesis, genesis, hg.NewInmemStore(10000))
+		o.nd = w.NewNode(id, c.nval(), genesis, genesis, hg.NewInmemStore(10000))
 		for _, eid := range order {
 			ev := &hg.Event{Body: evs[eid].Body, Signature: evs[eid].Signature}
 			psBefore, _ := o.nd.Store.GetAllPeerSets()
@@ -273,7 +298,11 @@ func main() {
 		if a.nd.BlockBodyStr(ba, false) != b.nd.BlockBodyStr(bb, false) || string(ba.FrameHash()) != string(bb.FrameHash()) {
 			forks++
 			if forks == 1 {
-				w.Violation("C01", "blocks-differ-under-late-membership-change",
+				class := "blocks-differ-under-late-membership-change"
+				if c.Leave {
+					class = "blocks-differ-after-validator-set-shrink"
+				}
+				w.Violation("C01", class,
 					fmt.Sprintf("scenario=%s block=%d rr=%d/%d txs-a=%s txs-b=%s frame-a=%X frame-b=%X",
 						scen, i, ba.RoundReceived(), bb.RoundReceived(), txs(ba), txs(bb), ba.FrameHash()[:6], bb.FrameHash()[:6]))
 			}
@@ -292,7 +321,24 @@ func main() {
 			rdiff = append(rdiff, fmt.Sprintf("%d:%d/%d", x, ra, rb))
 		}
 	}
-	fmt.Fprintf(out, "Z 0 n=4 events=%d blocks-a=%d blocks-b=%d forked-blocks=%d rounds-differ=%d\n", len(evs),
-		a.nd.Store.LastBlockIndex()+1, b.nd.Store.LastBlockIndex()+1, forks, len(rdiff))
+	// witnesses whose fame the two nodes decided differently
+	fdiff := []string{}
+	for r := 0; r <= a.nd.Store.LastRound() && r <= b.nd.Store.LastRound(); r++ {
+		ra, e1 := a.nd.Store.GetRound(r)
+		rb, e2 := b.nd.Store.GetRound(r)
+		if e1 != nil || e2 != nil {
+			continue
+		}
+		for x := range evs {
+			ca, ok1 := ra.CreatedEvents[evs[x].Hex()]
+			cb, ok2 := rb.CreatedEvents[evs[x].Hex()]
+			if ok1 && ok2 && ca.Witness && cb.Witness && ca.Famous != common.Undefined && cb.Famous != common.Undefined && ca.Famous != cb.Famous {
+				fdiff = append(fdiff, fmt.Sprintf("%d@%d:%v/%v", x, r, ca.Famous, cb.Famous))
+			}
+		}
+	}
+	fmt.Fprintf(out, "Z 0 n=%d events=%d blocks-a=%d blocks-b=%d forked-blocks=%d rounds-differ=%d fame-differs=%d\n", c.nval(), len(evs),
+		a.nd.Store.LastBlockIndex()+1, b.nd.Store.LastBlockIndex()+1, forks, len(rdiff), len(fdiff))
 	fmt.Fprintf(out, "# rounds A/B: %s\n", strings.Join(rdiff, " "))
+	fmt.Fprintf(out, "# fame A/B: %s\n", strings.Join(fdiff, " "))
 }
